@@ -14,6 +14,7 @@ type GenParams struct {
 	Seed  uint64 `json:"seed"`
 	Class string `json:"class"` // small | lens | many | big | longnames
 	Sized bool   `json:"sized"` // NewDBISize vs NewDBI (growth path)
+	Frac  int    `json:"frac,omitempty"` // percent of the needed size to pre-allocate when Sized (0 = 100)
 }
 
 var keyLens = []int{1, 2, 127, 128, 511}
@@ -59,6 +60,8 @@ func Gen(p GenParams) *wire.Snap {
 	switch p.Class {
 	case "big":
 		nd = 1 + r.Intn(2)
+	case "hugeval":
+		nd = 1
 	case "many":
 		nd = 1 + r.Intn(3)
 	case "longnames":
@@ -107,6 +110,13 @@ func Gen(p GenParams) *wire.Snap {
 				}
 			}
 			add(i, kl, vl)
+		}
+		if p.Class == "hugeval" {
+			// single entries larger than the next growth step of the buffer
+			pat := rng.Pick(r, []int{11 << 20}, []int{9 << 20, 25 << 20}, []int{100, 12 << 20, 100}, []int{6 << 20, 15 << 20}, []int{1 << 20, 1 << 20, 30 << 20})
+			for i, vl := range pat {
+				add(i, 8, vl)
+			}
 		}
 		if p.Class == "big" {
 			// cross the pre-allocation and growth steps: > 10 MB, and one > 21 MB
